@@ -399,8 +399,8 @@ impl ProtocolSet {
         let connection_handle = self.connection.downgrade();
         let mut futures = self
             .protocols
-            .values()
-            .map(|sender| {
+            .iter()
+            .map(|(protocol, sender)| {
                 let endpoint = endpoint.clone();
                 let connection_handle = connection_handle.clone();
 
@@ -414,14 +414,25 @@ impl ProtocolSet {
                             sender: connection_handle,
                         })
                         .await
+                        .inspect_err(|_| {
+                            tracing::debug!(
+                                target: LOG_TARGET,
+                                %protocol,
+                                ?peer,
+                                "protocol has exited, connection established not reported to it",
+                            );
+                        })
                 }
             })
             .collect::<FuturesUnordered<_>>();
 
+        // A protocol whose event loop has ended (the user dropped its handle and the protocol was
+        // unregistered) has a closed receiver. Transports hold a copy of the protocol senders made
+        // when they were built, so it is still listed here; it is skipped, like
+        // `report_connection_closed` does. The connection is for the protocols that still run:
+        // failing the whole accept would make the node refuse every later connection.
         while !futures.is_empty() {
-            if let Some(Err(error)) = futures.next().await {
-                return Err(error.into());
-            }
+            let _ = futures.next().await;
         }
 
         Ok(())
